@@ -8,17 +8,34 @@ package main
 // its resident set from /proc/<pid>/status and kills it above a cap, so that unbounded growth is observed
 // instead of suffered. Protocol with the parent: one line `ADDR <host:port>` on stdout; the process exits
 // with status 0 when its stdin is closed.
+//
+// Side channel for the accumulation oracle (`c11accum`, o_session_accum.go), harness only: a line on stdin is a
+// request, answered by one line on stdout:
+//
+//	STATS        -> `STATS heapalloc=<bytes> heapobjects=<n> heapsys=<bytes> goroutines=<n>` measured after two
+//	                runtime.GC() and debug.FreeOSMemory(): the LIVE heap, independent of GOGC and allocator slack
+//	PROFILE <f>  -> `PROFILE written`: a pprof heap profile in file <f> (env C11A_PROFDIR of the oracle)
+//	SITES        -> `SITES <bytes>@<frames>|<bytes>@<frames>|…`: the in-use bytes of the memory profile
+//	                (runtime.MemProfile, after GC), summed per allocation site (innermost frames inside gluon first);
+//	                meaningful with -memprofrate
 
 import (
+	"bufio"
 	"context"
 	"flag"
 	"fmt"
 	"io"
+	"math"
 	"net"
 	"os"
 	"os/signal"
 	"path/filepath"
 	"runtime"
+	"runtime/debug"
+	"runtime/pprof"
+	"sort"
+	"strings"
+	"sync/atomic"
 	"syscall"
 	"time"
 
@@ -31,7 +48,11 @@ func c11sRunChild(args []string) int {
 	fs := flag.NewFlagSet("c11child", flag.ExitOnError)
 	dir := fs.String("dir", "", "working directory of the server (created by the parent)")
 	asLimit := fs.Uint64("aslimit", 0, "RLIMIT_AS in MiB (0 = none)")
+	memProfRate := fs.Int("memprofrate", 0, "runtime.MemProfileRate (0 = leave the default)")
 	_ = fs.Parse(args)
+	if *memProfRate > 0 {
+		runtime.MemProfileRate = *memProfRate
+	}
 	if *asLimit > 0 {
 		lim := &syscall.Rlimit{Cur: *asLimit << 20, Max: *asLimit << 20}
 		if err := syscall.Setrlimit(syscall.RLIMIT_AS, lim); err != nil {
@@ -66,8 +87,9 @@ func c11sRunChild(args []string) int {
 		return 2
 	}
 	flags := imap.NewFlagSet(imap.FlagSeen, imap.FlagFlagged, imap.FlagDeleted, imap.FlagAnswered, imap.FlagDraft)
-	conn := connector.NewDummy([]string{"user"}, []byte(sysPassword), time.Hour, flags, flags, imap.NewFlagSet())
-	conn.SetUpdatesAllowedToFail(true)
+	dummy := connector.NewDummy([]string{"user"}, []byte(sysPassword), time.Hour, flags, flags, imap.NewFlagSet())
+	dummy.SetUpdatesAllowedToFail(true)
+	conn := &c11sCountingConn{Dummy: dummy}
 	ctx, cancel := context.WithCancel(context.Background())
 	defer cancel()
 	if _, err := srv.AddUser(ctx, conn, []byte("passphrase")); err != nil {
@@ -93,9 +115,137 @@ func c11sRunChild(args []string) int {
 	}()
 	fmt.Printf("ADDR %s\n", ln.Addr().String())
 	_ = os.Stdout.Sync()
-	_, _ = io.Copy(io.Discard, os.Stdin)
+	c11sChildControl(dummy)
 	// no orderly shutdown: the parent removes the directory; what matters was observed on the wire
 	return 0
+}
+
+// c11sCountingConn: the dummy connector stands in for the remote mail service and keeps every message it was ever
+// given (connector/dummy_state.go: createMessage stores literal + parsed form, nothing deletes them, also when the
+// message has left its last mailbox). That memory is the remote's, not the server's: the accumulation oracle is told
+// how many bytes it is.
+type c11sCountingConn struct {
+	*connector.Dummy
+}
+
+var c11sBackendBytes atomic.Int64
+
+func (c *c11sCountingConn) CreateMessage(ctx context.Context, st connector.IMAPStateWrite, mboxID imap.MailboxID, literal []byte, flags imap.FlagSet, date time.Time) (imap.Message, []byte, error) {
+	c11sBackendBytes.Add(int64(cap(literal)))
+	return c.Dummy.CreateMessage(ctx, st, mboxID, literal, flags, date)
+}
+
+// c11sChildControl answers the requests of the parent (see the head of this file) until stdin is closed.
+func c11sChildControl(dummy *connector.Dummy) {
+	in := bufio.NewReader(os.Stdin)
+	for {
+		l, err := in.ReadString('\n')
+		switch strings.TrimSpace(l) {
+		case "STATS":
+			// the dummy connector echoes every change made through IMAP as an update and queues it until its next
+			// flush (period: an hour here); that queue is the test double's, not the server's
+			dummy.ClearUpdates()
+			runtime.GC()
+			runtime.GC()
+			debug.FreeOSMemory()
+			var m runtime.MemStats
+			runtime.ReadMemStats(&m)
+			fmt.Printf("STATS heapalloc=%d heapobjects=%d heapsys=%d goroutines=%d backend=%d\n", m.HeapAlloc, m.HeapObjects, m.HeapSys, runtime.NumGoroutine(), c11sBackendBytes.Load())
+			_ = os.Stdout.Sync()
+		case "SITES":
+			fmt.Printf("SITES %s\n", c11sChildSites())
+			_ = os.Stdout.Sync()
+		default:
+			// PROFILE <file>: a pprof heap profile (after GC), for `go tool pprof` when a finding is investigated
+			if f := strings.Fields(l); len(f) == 2 && f[0] == "PROFILE" {
+				runtime.GC()
+				runtime.GC()
+				msg := "written"
+				if fh, err := os.Create(f[1]); err != nil {
+					msg = err.Error()
+				} else {
+					if err := pprof.WriteHeapProfile(fh); err != nil {
+						msg = err.Error()
+					}
+					_ = fh.Close()
+				}
+				fmt.Printf("PROFILE %s\n", strings.ReplaceAll(msg, "\n", " "))
+				_ = os.Stdout.Sync()
+			}
+		}
+		if err != nil {
+			_, _ = io.Copy(io.Discard, in)
+			return
+		}
+	}
+}
+
+// c11sChildSites: in-use bytes per allocation site, biggest first (at most 40 sites).
+func c11sChildSites() string {
+	runtime.GC()
+	runtime.GC()
+	n, _ := runtime.MemProfile(nil, true)
+	recs := make([]runtime.MemProfileRecord, n+200)
+	n, ok := runtime.MemProfile(recs, true)
+	if !ok {
+		return "-"
+	}
+	sum := map[string]int64{}
+	for _, r := range recs[:n] {
+		if r.InUseBytes() <= 0 {
+			continue
+		}
+		frames := runtime.CallersFrames(r.Stack())
+		var inner, gl []string
+		for {
+			f, more := frames.Next()
+			if f.Function != "" {
+				fn := strings.TrimPrefix(f.Function, "github.com/ProtonMail/gluon/")
+				if strings.HasPrefix(f.Function, "github.com/ProtonMail/gluon") {
+					if len(gl) < 3 {
+						gl = append(gl, fmt.Sprintf("%s:%d", fn, f.Line))
+					}
+				} else if len(gl) == 0 && len(inner) < 2 && !strings.HasPrefix(f.Function, "runtime.") {
+					inner = append(inner, f.Function)
+				}
+			}
+			if !more {
+				break
+			}
+		}
+		key := strings.Join(append(inner, gl...), "<")
+		if key == "" {
+			key = "(runtime)"
+		}
+		// the records hold what was SAMPLED (one allocation per MemProfileRate bytes on average); scale as pprof does
+		est := float64(r.InUseBytes())
+		if rate := float64(runtime.MemProfileRate); rate > 1 && r.InUseObjects() > 0 {
+			avg := est / float64(r.InUseObjects())
+			est /= 1 - math.Exp(-avg/rate)
+		}
+		sum[strings.ReplaceAll(strings.ReplaceAll(key, " ", ""), "|", "/")] += int64(est)
+	}
+	keys := make([]string, 0, len(sum))
+	for k := range sum {
+		keys = append(keys, k)
+	}
+	sort.Slice(keys, func(i, j int) bool {
+		if sum[keys[i]] != sum[keys[j]] {
+			return sum[keys[i]] > sum[keys[j]]
+		}
+		return keys[i] < keys[j]
+	})
+	if len(keys) > 40 {
+		keys = keys[:40]
+	}
+	var parts []string
+	for _, k := range keys {
+		parts = append(parts, fmt.Sprintf("%d@%s", sum[k], k))
+	}
+	if len(parts) == 0 {
+		return "-"
+	}
+	return strings.Join(parts, "|")
 }
 
 func init() {
